@@ -9,7 +9,7 @@ import (
 
 // Shapes lists every data shape known to the generator.
 var Shapes = []string{"random", "text", "utf8", "utf8wide", "dna", "dnalines", "exe", "wav", "bmp",
-	"runs", "smallalpha", "skew", "zeros", "gzipmagic", "mixed", "ramp", "numeric", "html", "sparse", "x86"}
+	"runs", "smallalpha", "skew", "zeros", "gzipmagic", "mixed", "ramp", "numeric", "html", "sparse", "x86", "hex", "nibbles", "alpha15", "alpha17", "base64", "dnarep", "bmptile"}
 
 var words = strings.Fields(`the of and to in is that it was for on are as with his they be at one have this from
 or had by hot word but what some we can out other were all there when up use your how said an each she which do
@@ -214,6 +214,72 @@ func Make(shape string, seed int64, n int) []byte {
 			}
 			for k := 0; k < l; k++ {
 				b = append(b, v)
+			}
+		}
+	case "dnarep":
+		// DNA with repeated motifs and point mutations (long matches for the LZ family)
+		motifs := make([][]byte, 40)
+		for i := range motifs {
+			m := make([]byte, 20+r.Intn(200))
+			for k := range m {
+				m[k] = "ACGT"[r.Intn(4)]
+			}
+			motifs[i] = m
+		}
+		for len(b) < n {
+			m := motifs[r.Intn(len(motifs))]
+			for _, c := range m {
+				if r.Intn(60) == 0 {
+					c = "ACGT"[r.Intn(4)]
+				}
+				b = append(b, c)
+			}
+		}
+	case "bmptile":
+		// bitmap whose rows repeat a tile, with a little noise
+		h := make([]byte, 54)
+		copy(h, "BM")
+		binary.LittleEndian.PutUint32(h[2:], uint32(n))
+		binary.LittleEndian.PutUint32(h[10:], 54)
+		binary.LittleEndian.PutUint32(h[14:], 40)
+		binary.LittleEndian.PutUint32(h[18:], 128)
+		binary.LittleEndian.PutUint32(h[22:], 128)
+		binary.LittleEndian.PutUint16(h[26:], 1)
+		binary.LittleEndian.PutUint16(h[28:], 24)
+		b = append(b, h...)
+		tile := make([]byte, 96)
+		for k := range tile {
+			tile[k] = byte(40 + 2*(k%48) + r.Intn(3))
+		}
+		for len(b) < n {
+			for _, c := range tile {
+				if r.Intn(40) == 0 {
+					c += byte(r.Intn(5))
+				}
+				b = append(b, c)
+			}
+		}
+	case "hex":
+		for len(b) < n {
+			b = append(b, "0123456789abcdef"[r.Intn(16)])
+		}
+	case "nibbles":
+		for len(b) < n {
+			b = append(b, byte(r.Intn(16)))
+		}
+	case "alpha15":
+		for len(b) < n {
+			b = append(b, byte(100+7*r.Intn(15)))
+		}
+	case "alpha17":
+		for len(b) < n {
+			b = append(b, byte(3+11*r.Intn(17)))
+		}
+	case "base64":
+		for len(b) < n {
+			b = append(b, "ABCDEFGHIJKLMNOPQRSTUVWXYZabcdefghijklmnopqrstuvwxyz0123456789+/"[r.Intn(64)])
+			if len(b)%77 == 76 {
+				b = append(b, '\n')
 			}
 		}
 	case "smallalpha":
